@@ -3371,6 +3371,9 @@ class PyCdlib:
         if iso_path is None and joliet_path is None and udf_path is None:
             raise pycdlibexception.PyCdlibInvalidInput("At least one of 'iso_path', 'joliet_path', or 'udf_path' must be provided")
 
+        if length < 0:
+            raise pycdlibexception.PyCdlibInvalidInput('The length of the data must not be negative')
+
         fmode = 0
         if file_mode is not None:
             if not self.rock_ridge:
@@ -4615,6 +4618,9 @@ class PyCdlib:
 
         if hasattr(self._cdfp, 'mode') and not self._cdfp.mode.startswith(('r+', 'w', 'a', 'rb+')):
             raise pycdlibexception.PyCdlibInvalidInput('To modify a file in place, the original ISO must have been opened in a write mode (r+, w, or a)')
+
+        if length < 0:
+            raise pycdlibexception.PyCdlibInvalidInput('The length of the new data must not be negative')
 
         child = self._find_iso_record(utils.normpath(iso_path))
 
